@@ -106,3 +106,55 @@ pub proof fn lemma_pre_assoc(a: Seq<u8>, b: Seq<u8>, o: Option<Seq<u8>>)
 pub open spec fn latin1(b: Seq<u8>) -> Seq<char> { Seq::new(b.len(), |i: int| b[i] as char) }
 /// a normalised element is well-escaped: every '%' is followed by two hex digits
 pub open spec fn well_escaped(s: Seq<u8>) -> bool { decode_from(s, 0, false) is Some }
+
+// ---- decode . encode = id : the normal form is well-escaped and canonicalisation is idempotent (C09, C10) ----
+pub proof fn lemma_decode_shift(a: Seq<u8>, s: Seq<u8>, i: int, query: bool)
+    requires 0 <= i
+    ensures decode_from(a + s, a.len() + i, query) == decode_from(s, i, query)
+    decreases s.len() - i
+{
+    let t = a + s;
+    let j = a.len() + i;
+    if i >= s.len() {
+    } else {
+        assert(t[j] == s[i]);
+        if s[i] == 0x25 {
+            if i + 2 < s.len() {
+                assert(t[j + 1] == s[i + 1]); assert(t[j + 2] == s[i + 2]);
+                lemma_decode_shift(a, s, i + 3, query);
+            }
+        } else {
+            lemma_decode_shift(a, s, i + 1, query);
+        }
+    }
+}
+pub proof fn lemma_upper_hex_val(n: int)
+    requires 0 <= n < 16
+    ensures hexval(upper_hex(n)) == n
+{}
+pub proof fn lemma_decode_encode(d: Seq<u8>, query: bool)
+    ensures decode_from(encode(d), 0, query) == Some(d)
+    decreases d.len()
+{
+    if d.len() == 0 {
+    } else {
+        let b = d[0];
+        let rest = d.subrange(1, d.len() as int);
+        lemma_decode_encode(rest, query);
+        let x = encode(rest);
+        let e = enc1(b);
+        assert(encode(d) == e + x);
+        lemma_decode_shift(e, x, 0, query);
+        assert(seq![b] + rest =~= d);
+        if unreserved(b) {
+            assert((e + x)[0] == b);
+        } else {
+            assert((e + x)[0] == 0x25u8);
+            assert((e + x)[1] == upper_hex((b / 16) as int));
+            assert((e + x)[2] == upper_hex((b % 16) as int));
+            lemma_upper_hex_val((b / 16) as int);
+            lemma_upper_hex_val((b % 16) as int);
+            assert((16 * (b / 16) + b % 16) as u8 == b);
+        }
+    }
+}
